@@ -210,6 +210,33 @@ class OpenRFile(io.BytesIO):
         raise ReadsBeyondRequest("readlines()")
 
 
+class _SegmentedRaw(io.RawIOBase):
+    """the receiving side of a TCP connection on which the client's bytes arrive in segments of at most `seg` bytes; at
+    the end of what the client sent: EOF (client closed its sending side) or, with open_conn, ReadsBeyondRequest"""
+
+    def __init__(self, data, seg, open_conn):
+        super().__init__()
+        self.data, self.pos, self.seg, self.open_conn = bytes(data), 0, max(1, seg), open_conn
+
+    def readable(self):
+        return True
+
+    def readinto(self, b):
+        if self.pos >= len(self.data):
+            if self.open_conn:
+                raise ReadsBeyondRequest("read after all %d bytes of the request" % len(self.data))
+            return 0
+        n = min(len(b), self.seg, len(self.data) - self.pos)
+        b[:n] = self.data[self.pos:self.pos + n]
+        self.pos += n
+        return n
+
+
+def segmented_rfile(data, seg, open_conn=False):
+    """what socketserver.StreamRequestHandler.setup() builds for rbufsize = -1: a BufferedReader over the socket"""
+    return io.BufferedReader(_SegmentedRaw(data, seg, open_conn))
+
+
 class MockRequest(socket.socket):
     def __init__(self, rfile, wfile):  # noqa: no super().__init__ on purpose (no real socket)
         self._rfile = rfile
@@ -329,7 +356,7 @@ def _gelog_recorder(exception, protocol=None, handler=None):
 
 
 def serve(config, request, tls=False, wfile=None, realfd=False, reset=True, server=None,
-          keep_protocol=False, open_conn=False):
+          keep_protocol=False, open_conn=False, segment=None):
     """Run one connection through GopherRequestHandler.handle(), exactly as socketserver would,
     with the socket replaced.  `request` = all bytes the client sends."""
     if reset:
@@ -344,7 +371,10 @@ def serve(config, request, tls=False, wfile=None, realfd=False, reset=True, serv
         GopherExceptions.log = _gelog_recorder
     if server is None:
         server = ServerStub(config)
-    rfile = OpenRFile(request) if open_conn else io.BytesIO(request)
+    if segment:
+        rfile = segmented_rfile(request, segment, open_conn)
+    else:
+        rfile = OpenRFile(request) if open_conn else io.BytesIO(request)
     own_w = wfile is None
     if own_w:
         wfile = WFile() if realfd else MemWFile()
